@@ -1,5 +1,6 @@
 import PymocaVerif.Lemmas.SqliteLock
 import PymocaVerif.Generated.SqlProgram
+import PymocaVerif.Lemmas.ParseCacheConc
 /-!
 # C02 — concurrent parses sharing a cache folder all succeed
 
@@ -11,9 +12,9 @@ the translator extracts from `parser.parse` / `_check_database_structure` on eve
 Not expressible here (the runtime part of the property, see `no_deadlock`): SQLite's busy timeout
 (5 s), scheduler starvation and the OS-level race of `os.remove`; the model lets a waiting
 statement wait.  The free-running multi-process stress of `harness/props/c02.py` is the only
-witness for that part.  That every call returns the tree of the uncached parse is C01's invariant
-(`Props/C01.lean`, `inv_step` for every operation, foreign writers included) and is checked directly
-on the real code by the stress and the scheduled runs.
+witness for that part.  That every call returns the tree of the uncached parse is `same_result_under_interference` below (rely/guarantee
+over C01's model at transaction granularity, which `single_writer` justifies) and is checked directly on the
+real code by the stress and the scheduled runs.
 -/
 namespace PymocaVerif.C02
 open PymocaVerif.SqliteLock PymocaVerif.Generated.SqlProgram
@@ -101,5 +102,45 @@ theorem deferred_upgrade_fails :
   ⟨[0, 0, 1, 1, 0, 1], _, runN_Run (n := 2) (init_idle 2) (by decide), by decide⟩
 
 example : pathOk deferredCheck = false := by decide
+
+/-! ### Every call returns the uncached result, whatever the others commit in between -/
+
+section SameResult
+open PymocaVerif.ParseCache
+
+variable {pf : Ver → TextId → Option TreeId}
+
+/-- **Each call returns the same tree as an uncached parse**: one `parse` call (model `parseCachedI`, C01's
+    state machine with an arbitrary commit of other processes before each of its transactions) returns the
+    uncached result — `none` iff syntax error, no exception — provided every such commit satisfies `Rely` (keeps
+    the row invariant, does not destroy tables with the expected layout, does not turn the file into garbage),
+    the file is not garbage at the start (fresh, existing or wrong layout — all allowed), and a process that had
+    initialised the database before still finds its `models` table. -/
+theorem same_result_under_interference {cfg : Cfg} (hc : CaughtAll cfg) (s : St) (x : TextId) (days : Int) (upd : Bool)
+    (env : Interference) (henv : ∀ g ∈ env, Rely pf g) (h : RowInv pf s) (hng : s.file ≠ .garbage)
+    (hinit : s.init = true → ModelsOk s.file) :
+    (parseCachedI cfg pf s x days upd env).2 = .value (pf s.ver x) :=
+  parseCachedI_spec hc henv h hng hinit
+
+/-- **… and what the calls do to each other is such a commit**: every transaction of `parse` (structure checks,
+    metadata defaults, prune, last-hit update, insert of a fresh tree), and every sequence of them, satisfies
+    `Rely` — so any number of concurrent calls are an admissible environment for each other. -/
+theorem own_transactions_are_admissible {g : DbFile → DbFile} (h : OwnTx pf g) : Rely pf g := ownTx_rely h
+
+/-- a wrong-layout database, another process creating the tables and inserting the same text in the gaps -/
+example :
+    let pf : Ver → TextId → Option TreeId := fun _ x => some (x + 1)
+    let s : St := ⟨.db (some ⟨.alien, []⟩) (some .alien), false, 100, 1, 0, false⟩
+    let other : DbFile → DbFile := fun f =>
+      match txCheckModels f with | .ok f' => (match txInsert 0 0 1 50 f' with | .ok f'' => f'' | .error _ => f') | .error _ => f
+    (parseCachedI { caught := ["Exception"] } pf s 0 30 true [other, other, id, other, id, other, other, other]).2
+      = .value (some 1) := by decide +kernel
+
+example : OwnTx (fun _ x => some (x + 1))
+    (fun f => (fun f' => match txInsert 0 0 1 50 f' with | .ok f'' => f'' | .error _ => f')
+      ((fun f => match txCheckModels f with | .ok f' => f' | .error _ => f) f)) :=
+  OwnTx.comp OwnTx.checkModels (OwnTx.insert 0 0 1 50 rfl)
+
+end SameResult
 
 end PymocaVerif.C02
